@@ -38,6 +38,18 @@ DIRECTIONS = {
         "transport that is not released or is released twice), and mistakes in arithmetic on bytes and bits (shift by the wrong "
         "amount only visible for values >= 128 or >= 2**31, signed vs unsigned, endianness of a multi-byte field that the tests only "
         "exercise with palindromic or small values). Avoid what the earlier notes below already did."),
+    7: ("Welcome directions this round: (1) state shared where it should be per instance - between two CLIENT objects or two ENCODER "
+        "objects living in one process / one event loop (class attributes, module-level singletons, default arguments, caches), so that "
+        "the second object misbehaves only because the first one exists or did something; (2) dependence on the process environment "
+        "(log level, time zone, current date, working directory, event-loop debug mode, hash seed, import order); (3) tolerance of legal "
+        "but unusual ARGUMENT TYPES at the public API (bytes vs bytearray vs memoryview, str with surrounding whitespace or a trailing "
+        "newline, int vs float vs numpy-like numbers, enum vs its value, tuples instead of lists, upper/lower-case hex); (4) an "
+        "exception raised at one point leaving an object half-updated so that the NEXT call misbehaves (a lock not released, a flag not "
+        "reset, a buffer not trimmed, a dict entry left behind, a counter advanced twice); (5) ordering between two awaits or two "
+        "statements swapped so that a window opens in which another task sees an inconsistent state; (6) code paths for the rarely "
+        "used field types and definitions (STRING_LZ, STRING_LAU, variable-length BINARY, repeating field sets, MMSI, DECIMAL, FLOAT, "
+        "64-bit fields, PGN-typed fields, ISO transport-protocol PGNs 60160/60416, ISO request/acknowledge, group functions 126208). "
+        "Avoid what the earlier notes below already did."),
 }
 
 
